@@ -302,10 +302,14 @@ func oneRun(b *o4.Bridge, s *scenario, rng *mrand.Rand, bit int) bool {
 	w.Emit(vt.Ev{"event": "Plan", "intact": intactBytes, "total": total, "intact_frames": intactFrames})
 	// the victim's application reader
 	done := make(chan string, 1)
+	readerGone := make(chan struct{})
 	go func() {
+		defer close(readerGone)
 		o := 0
-		buf := make([]byte, 4096)
-		for {
+		// small application buffers leave decoded data behind in the endpoint when the error is hit
+		buf := make([]byte, []int{4096, 4096, 256, 64, 1, 1500}[int(s.Seed+int64(bit)+1000)%6])
+		reported := false
+		for extra := 0; extra < 200; {
 			k, err := v.c.Read(buf)
 			if k > 0 {
 				ok := true
@@ -321,9 +325,17 @@ func oneRun(b *o4.Bridge, s *scenario, rng *mrand.Rand, bit int) bool {
 				w.Emit(vt.Ev{"event": "ReadRet", "d": "x", "off": o, "n": k, "ok": ok, "err": e})
 				o += k
 			}
-			if err != nil {
+			if err != nil && !reported {
+				reported = true
 				done <- err.Error()
-				return
+			}
+			// a consumer like io.ReadFull keeps calling Read when a call returned data together with the error: whatever
+			// comes then must still be the next range of the intact prefix
+			if reported {
+				extra++
+				if k == 0 {
+					return
+				}
 			}
 		}
 	}()
@@ -402,6 +414,10 @@ func oneRun(b *o4.Bridge, s *scenario, rng *mrand.Rand, bit int) bool {
 	v.c.Close()
 	l.A.Close()
 	l.B.Close()
+	select {
+	case <-readerGone:
+	case <-time.After(5 * time.Second):
+	}
 	return true
 }
 
